@@ -11,8 +11,9 @@ import ColaVerif.Lemmas.CGInputs
 * `ex3_guards`: `GuardsOffN` for the whole run, obtained from the INPUTS by `guardsOffN_single`
   (`exA3_posDef`, `exA3_coercive`, `Mi_coercive`, `ex3_tol`).
 * `ex3_steps`: with `max_iters = 5`, `tol = 1/10` the loop makes exactly `k = 3` steps.
-* `exAt = 1e-41 · exA3`: `exAt_not_optimal` — once a guard acts (`⟪p, A p⟫ = 2e-41 < 1e-40`) the returned
-  vector is not the Krylov optimum: the guard hypothesis of `C12_optimal` cannot be dropped.
+* `exAt = 1e-41 · exA3` (REGRESSION example): before the repair 1a4d949 of /repo `do_safe_div` compared
+  `⟪p, A p⟫ = 2e-41` with the absolute `1e-40` and the model returned `1e40 · e₀`; with the exact zero
+  test the model returns the Krylov optimum `5e40 · e₀` (`exAt_out`, `exAt_optimal`).
 -/
 
 namespace CG
@@ -165,7 +166,7 @@ theorem ex3_steps :
   have hcore : ∀ i ≤ t, (colState exA3 none (oneCol exb3) (oneCol exz3) 0 i).r =
       (cgSeq A3 Mi exb3 exz3 i).r := by
     intro i hi
-    have h := gSeq_core (A := A3) (M := Mi) i (fun j hj => hg j (lt_of_lt_of_le hj hi))
+    have h := gSeq_core (A := A3) (M := Mi) smallR_pos i (fun j hj => hg j (lt_of_lt_of_le hj hi))
     unfold colState
     rw [show normDen (oneCol exb3 0) = ((‖exb3‖ : ℝ) : ℝ) from nscale_of_ne exb3_ne]
     have e : ((gStep A3 Mi smallR)^[i] (gInit A3 Mi ((((‖exb3‖ : ℝ) : ℝ))⁻¹ • oneCol exb3 0)
@@ -258,9 +259,9 @@ theorem exAt_steps :
     rw [exAt_colState0, exb3_norm] at h0
     norm_num at h0
 
-/-- the value returned after that step: the guarded division replaced `⟪p, A p⟫ = 2e-41` by `1e-40` -/
+/-- the value returned after that step: `α = γ / ⟪p, A p⟫ = 1 / 2e-41` — no guard interferes any more -/
 theorem exAt_out :
-    xOut exAt none (oneCol exb3) (oneCol exz3) 1 (RCLike.ofReal (1 / 10 : ℝ)) 0 = !₂[10 ^ 40, 0, 0] := by
+    xOut exAt none (oneCol exb3) (oneCol exz3) 1 (RCLike.ofReal (1 / 10 : ℝ)) 0 = !₂[5 * 10 ^ 40, 0, 0] := by
   unfold xOut
   rw [exAt_steps]
   unfold gRun
@@ -279,40 +280,23 @@ theorem exAt_out :
   have hr : ¬ ‖(!₂[1, 0, 0] : EuclideanSpace ℝ (Fin 3))‖ < smallR := by
     rw [norm3]; norm_num
     exact hs1
-  have hd : (1 : ℝ) / 50000000000000000000000000000000000000000 < smallR := by
-    unfold smallR
-    rw [div_lt_div_iff₀ (by positivity) (by positivity)]
-    norm_num
   simp only [gStep, sdiv, exAt_apply, inner3, if_neg hr]
   norm_num
-  rw [if_pos hd, smul3, add3]
-  unfold smallR
+  rw [smul3, add3]
   norm_num
-/-- **without the guard hypothesis optimality fails** (model = code): on the Hermitian positive
-definite `1e-41 · tridiag(-1, 2, -1)` (condition number `< 6`), `b = e₀`, `x0 = 0`, `max_iters = 1`,
-`tol = 1/10`, the returned vector `1e40 · e₀` is NOT the minimiser of the energy over
-`x0 + K_1 = span {e₀}`: `5e40 · e₀` has a strictly smaller energy. -/
-theorem exAt_not_optimal :
-    ∃ y : EuclideanSpace ℝ (Fin 3),
-      y - oneCol exz3 0 ∈ krylov (Mi ∘ₗ At) (Mi (oneCol exb3 0 - At (oneCol exz3 0))) 1 ∧
-      energy At exxt y <
-        energy At exxt (xOut exAt none (oneCol exb3) (oneCol exz3) 1 (RCLike.ofReal (1 / 10 : ℝ)) 0) := by
-  refine ⟨!₂[5 * 10 ^ 40, 0, 0], ?_, ?_⟩
-  · have hv : Mi (oneCol exb3 0 - At (oneCol exz3 0)) = exb3 := by
-      show exb3 - At exz3 = exb3
-      unfold exz3 exb3
-      rw [exAt_apply, sub3]; norm_num
-    rw [hv]
-    have hy : (!₂[5 * 10 ^ 40, 0, 0] : EuclideanSpace ℝ (Fin 3)) - oneCol exz3 0 =
-        (5 * 10 ^ 40 : ℝ) • ((Mi ∘ₗ At) ^ 0) exb3 := by
-      show (!₂[5 * 10 ^ 40, 0, 0] : EuclideanSpace ℝ (Fin 3)) - exz3 = (5 * 10 ^ 40 : ℝ) • exb3
-      unfold exz3 exb3
-      rw [sub3, smul3]; norm_num
-    rw [hy]
-    exact Submodule.smul_mem _ _ (pow_mem_krylov Nat.zero_lt_one)
-  · rw [exAt_out]
-    unfold energy exxt
-    simp only [sub3, exAt_apply, inner3, RCLike.re_to_real]
-    norm_num
+
+/-- **regression example**: on `1e-41 · tridiag(-1, 2, -1)`, `b = e₀`, `x0 = 0`, `max_iters = 1`,
+`tol = 1/10` the returned vector `5e40 · e₀` minimises the energy over `x0 + K_1 = span {e₀}` (direct
+computation: the energy of `t · e₀` is `¾e41 - 2t + 2e-41 t²`, minimal at `t = 5e40`) -/
+theorem exAt_optimal (t : ℝ) :
+    energy At exxt (xOut exAt none (oneCol exb3) (oneCol exz3) 1 (RCLike.ofReal (1 / 10 : ℝ)) 0) ≤
+      energy At exxt !₂[t, 0, 0] := by
+  rw [exAt_out]
+  unfold energy exxt
+  simp only [sub3, exAt_apply, inner3, RCLike.re_to_real]
+  have h : 0 ≤ (t - 5 * 10 ^ 40) ^ 2 := sq_nonneg _
+  have e : (10 : ℝ) ^ 41 ≠ 0 := by positivity
+  field_simp
+  nlinarith [h]
 
 end CG
